@@ -80,6 +80,12 @@ func extNonNilPtr(e *Env, fr *Frame, fn *ssa.Function, args []Value, rt types.Ty
 	return v
 }
 
+func extNonNegInt(e *Env, fr *Frame, fn *ssa.Function, args []Value, rt types.Type, st *State) Value {
+	v := e.freshValue(rt, "rnd")
+	e.assume(sx("<=", "0", e.flatten(v)[0]))
+	return v
+}
+
 var externs map[string]externFn
 
 func init() {
@@ -112,6 +118,10 @@ func init() {
 	"slices.IndexFunc":        extSlicesIndexFunc,
 	"slices.DeleteFunc":       extSlicesDeleteFunc,
 	"slices.SortFunc":         extSlicesSortFunc,
+	"slices.Sort":             extSlicesSortFunc,
+	"math/rand.NewSource":     extNonNil,
+	"math/rand.New":           extNonNilPtr,
+	"(*math/rand.Rand).Int":   extNonNegInt,
 	"math.Ceil":               extMathCeil,
 	"google.golang.org/grpc/status.Error":  extStatusError,
 	"google.golang.org/grpc/status.Errorf": extStatusError,
@@ -202,11 +212,11 @@ func extErrorsJoin(e *Env, fr *Frame, fn *ssa.Function, args []Value, rt types.T
 	srt := heapSort("E", sInt, "")
 	arr := e.heapGet(st, name, srt)
 	j := "|$j|"
-	allNil := fmt.Sprintf("(forall ((%s Int)) (=> (and (<= 0 %s) (< %s %s)) (= (select (select %s %s) (+ %s %s)) 0)))", j, j, j, s.Len, arr, s.Arr, s.Off, j)
+	allNil := fmt.Sprintf("(forall ((%s Int)) (=> (and (<= 0 %s) (< %s %s)) (= (select (select %s %s) %s) 0)))", j, j, j, s.Len, arr, s.Arr, ixTerm(s.Off, j))
 	if isNumeral(s.Len) && atoi(s.Len) <= 8 {
 		var cs []string
 		for k := 0; k < atoi(s.Len); k++ {
-			cs = append(cs, mkEq(mkSelect(mkSelect(arr, s.Arr), addTerms(s.Off, fmt.Sprint(k))), "0"))
+			cs = append(cs, mkEq(mkSelect(mkSelect(arr, s.Arr), ixTerm(s.Off, fmt.Sprint(k))), "0"))
 		}
 		allNil = mkAnd(cs...)
 	}
@@ -228,7 +238,7 @@ func extSlicesIndex(e *Env, fr *Frame, fn *ssa.Function, args []Value, rt types.
 	v := e.flatten(args[1])[0]
 	r := e.fresh("idx", sInt)
 	j := "|$j|"
-	at := func(i string) string { return mkSelect(mkSelect(arr, s.Arr), sx("+", s.Off, i)) }
+	at := func(i string) string { return mkSelect(mkSelect(arr, s.Arr), ixTerm(s.Off, i)) }
 	e.assume(mkOr(
 		mkAnd(mkEq(r, "(- 1)"), fmt.Sprintf("(forall ((%s Int)) (! (=> (and (<= 0 %s) (< %s %s)) (not (= %s %s))) :pattern (%s)))", j, j, j, s.Len, at(j), v, at(j))),
 		mkAnd(sx("<=", "0", r), sx("<", r, s.Len), mkEq(at(r), v),
@@ -251,8 +261,8 @@ func extSlicesClone(e *Env, fr *Frame, fn *ssa.Function, args []Value, rt types.
 		inner := "(Array Int " + leaves[i].Sort + ")"
 		ni := e.fresh("cloned", inner)
 		j := "|$j|"
-		e.assume(fmt.Sprintf("(forall ((%s Int)) (! (=> (and (<= 0 %s) (< %s %s)) (= (select %s %s) (select (select %s %s) (+ %s %s)))) :pattern ((select %s %s))))",
-			j, j, j, s.Len, ni, j, arr, s.Arr, s.Off, j, ni, j))
+		e.assume(fmt.Sprintf("(forall ((%s Int)) (! (=> (and (<= 0 %s) (< %s %s)) (= (select %s %s) (select (select %s %s) %s))) :pattern ((select %s %s))))",
+			j, j, j, s.Len, ni, j, arr, s.Arr, ixTerm(s.Off, j), ni, j))
 		e.heapSet(st, name, sorts[i], e.maybeName(mkStore(arr, r, ni), sorts[i]))
 		e.noteWrite(name, r)
 	}
@@ -280,7 +290,7 @@ func (e *Env) closureAt(pred Value, s *Slice, j string, st *State) string {
 	et := s.Typ.Underlying().(*types.Slice).Elem()
 	e.quantDepth++
 	defer func() { e.quantDepth-- }()
-	elem := e.load(st, &Ptr{Kind: "elem", Ref: s.Arr, Idx: sx("+", s.Off, j), Root: et})
+	elem := e.load(st, &Ptr{Kind: "elem", Ref: s.Arr, Idx: ixTerm(s.Off, j), Root: et})
 	res := e.pureCall(fv.Fn, fv.Bind, []Value{elem}, st)
 	return res[0].(*Sc).T
 }
@@ -335,8 +345,8 @@ func extSlicesDeleteFunc(e *Env, fr *Frame, fn *ssa.Function, args []Value, rt t
 		inner := "(Array Int " + leaves[i].Sort + ")"
 		old := e.maybeNameForce(mkSelect(arr, s.Arr), inner, "delold")
 		ni := e.fresh("deleted", inner)
-		e.assume(fmt.Sprintf("(forall ((%s Int)) (! (=> (and (<= 0 %s) (< %s %s)) (= (select %s (+ %s %s)) (select %s (+ %s (%s %s))))) :pattern ((select %s (+ %s %s)))))", k, k, k, n, ni, s.Off, k, old, s.Off, f, k, ni, s.Off, k))
-		e.assume(fmt.Sprintf("(forall ((%s Int)) (! (=> (and (<= %s %s) (< %s %s)) (= (select %s (+ %s %s)) %s)) :pattern ((select %s (+ %s %s)))))", k, n, k, k, s.Len, ni, s.Off, k, e.zeroLeaf(leaves[i]), ni, s.Off, k))
+		e.assume(fmt.Sprintf("(forall ((%s Int)) (! (=> (and (<= 0 %s) (< %s %s)) (= (select %s %s) (select %s %s))) :pattern ((select %s %s))))", k, k, k, n, ni, ixTerm(s.Off, k), old, ixTerm(s.Off, sx(f, k)), ni, ixTerm(s.Off, k)))
+		e.assume(fmt.Sprintf("(forall ((%s Int)) (! (=> (and (<= %s %s) (< %s %s)) (= (select %s %s) %s)) :pattern ((select %s %s))))", k, n, k, k, s.Len, ni, ixTerm(s.Off, k), e.zeroLeaf(leaves[i]), ni, ixTerm(s.Off, k)))
 		e.assume(fmt.Sprintf("(forall ((%s Int)) (! (=> (or (< %s %s) (>= %s (+ %s %s))) (= (select %s %s) (select %s %s))) :pattern ((select %s %s))))", j, j, s.Off, j, s.Off, s.Len, ni, j, old, j, ni, j))
 		e.heapSet(st, name, sorts[i], e.maybeName(mkStore(arr, s.Arr, ni), sorts[i]))
 		e.noteWrite(name, s.Arr)
@@ -356,7 +366,10 @@ func extSlicesSortFunc(e *Env, fr *Frame, fn *ssa.Function, args []Value, rt typ
 	e.sess.Cmd("(declare-fun " + pi + " (Int) Int)")
 	e.sess.Cmd("(declare-fun " + inv + " (Int) Int)")
 	k, j := "|$k|", "|$j|"
-	e.assume(fmt.Sprintf("(forall ((%s Int)) (! (=> (and (<= 0 %s) (< %s %s)) (and (<= 0 (%s %s)) (< (%s %s) %s) (= (%s (%s %s)) %s))) :pattern ((%s %s))))", k, k, k, s.Len, pi, k, pi, k, s.Len, inv, pi, k, k, pi, k))
+	// (the inverse law for pi is triggered only by an existing inv(pi(k)) term: stating it under
+	// the pattern pi(k) makes the two laws feed each other without end)
+	e.assume(fmt.Sprintf("(forall ((%s Int)) (! (=> (and (<= 0 %s) (< %s %s)) (and (<= 0 (%s %s)) (< (%s %s) %s))) :pattern ((%s %s))))", k, k, k, s.Len, pi, k, pi, k, s.Len, pi, k))
+	e.assume(fmt.Sprintf("(forall ((%s Int)) (! (=> (and (<= 0 %s) (< %s %s)) (= (%s (%s %s)) %s)) :pattern ((%s (%s %s)))))", k, k, k, s.Len, inv, pi, k, k, inv, pi, k))
 	e.assume(fmt.Sprintf("(forall ((%s Int)) (! (=> (and (<= 0 %s) (< %s %s)) (and (<= 0 (%s %s)) (< (%s %s) %s) (= (%s (%s %s)) %s))) :pattern ((%s %s))))", j, j, j, s.Len, inv, j, inv, j, s.Len, pi, inv, j, j, inv, j))
 	names, sorts, leaves := e.elemArrays(et)
 	for i, name := range names {
@@ -364,7 +377,7 @@ func extSlicesSortFunc(e *Env, fr *Frame, fn *ssa.Function, args []Value, rt typ
 		inner := "(Array Int " + leaves[i].Sort + ")"
 		old := e.maybeNameForce(mkSelect(arr, s.Arr), inner, "sortold")
 		ni := e.fresh("sorted", inner)
-		e.assume(fmt.Sprintf("(forall ((%s Int)) (! (=> (and (<= 0 %s) (< %s %s)) (= (select %s (+ %s %s)) (select %s (+ %s (%s %s))))) :pattern ((select %s (+ %s %s)))))", k, k, k, s.Len, ni, s.Off, k, old, s.Off, pi, k, ni, s.Off, k))
+		e.assume(fmt.Sprintf("(forall ((%s Int)) (! (=> (and (<= 0 %s) (< %s %s)) (= (select %s %s) (select %s %s))) :pattern ((select %s %s))))", k, k, k, s.Len, ni, ixTerm(s.Off, k), old, ixTerm(s.Off, sx(pi, k)), ni, ixTerm(s.Off, k)))
 		e.assume(fmt.Sprintf("(forall ((%s Int)) (! (=> (or (< %s %s) (>= %s (+ %s %s))) (= (select %s %s) (select %s %s))) :pattern ((select %s %s))))", j, j, s.Off, j, s.Off, s.Len, ni, j, old, j, ni, j))
 		e.heapSet(st, name, sorts[i], e.maybeName(mkStore(arr, s.Arr, ni), sorts[i]))
 		e.noteWrite(name, s.Arr)
